@@ -303,6 +303,15 @@ Definition reads_spec (e o : epoch) : bool :=
   let rs := norm0 (lst (e_read e)) in let ws := norm0 (lst (e_write o)) in
   negb (is_nil_b (filter (fun x => mem x ws) rs)).
 
+(* which epochs are valid, stated independently of `validate`: the zero epoch, or no explicitly empty list, at most 10
+   entries per list, both strictly increasing, and a common element *)
+Definition valid_spec (e : epoch) : bool :=
+  negb (explicit_empty (e_read e)) && negb (explicit_empty (e_write e)) &&
+  (is_zero e ||
+   ((length (lst (e_read e)) <=? 10)%nat && (length (lst (e_write e)) <=? 10)%nat &&
+    is_increasing (lst (e_read e)) && is_increasing (lst (e_write e)) &&
+    negb (is_nil_b (filter (fun x => mem x (lst (e_write e))) (lst (e_read e)))))).
+
 (* the property on the implementation's observed behaviour *)
 Definition monitor_fail (c : case) : bool :=
   match c with
@@ -315,7 +324,8 @@ Definition monitor_fail (c : case) : bool :=
       end
   | CEpoch e o valid _ str_back _ js_back ro rs =>
       negb (Bool.eqb ro (reads_spec e o))
-      || (valid && (negb rs
+      || negb (Bool.eqb valid (valid_spec e))
+      || (valid_spec e && (negb rs
                     || match str_back with Some e' => negb (epoch_equal e e') | None => true end
                     || match js_back with Some e' => negb (epoch_equal e e') | None => true end))
   | CEpochStr s res =>
